@@ -269,7 +269,7 @@ func mat2(c *Ctx) {
 		}
 	}
 	if okPos {
-		for _, r := range ir.Returns(fn) {
+		for _, r := range ir.ReturnPoints(fn) {
 			if v, isC := ir.ConstBool(r.Results[0]); isC && v {
 				sl, isSl := r.Results[1].(*ssa.Slice)
 				if !isSl || sl.X != ssa.Value(args) || sl.High != nil {
@@ -390,7 +390,7 @@ func mat3(c *Ctx) {
 				ok, why = false, "the positional matcher never reads the options-ended flag"
 			}
 			// refusals (other than empty input) need !flag, HasPrefix(args[0],"-"), args[0] != "-"
-			for _, r := range ir.Returns(fn) {
+			for _, r := range ir.ReturnPoints(fn) {
 				v, isC := ir.ConstBool(r.Results[0])
 				if !isC || v {
 					continue
@@ -435,7 +435,7 @@ func mat3(c *Ctx) {
 			}
 		})
 		okRet := true
-		for _, r := range ir.Returns(fn) {
+		for _, r := range ir.ReturnPoints(fn) {
 			if v, isC := ir.ConstBool(r.Results[0]); !isC || !v || r.Results[1] != ssa.Value(fn.Params[len(fn.Params)-2]) {
 				okRet = false
 			}
@@ -488,7 +488,7 @@ func mat4(c *Ctx) {
 		}
 	}
 	recv := fn.Params[0]
-	for i, r := range ir.Returns(fn) {
+	for i, r := range ir.ReturnPoints(fn) {
 		verdict, vec := r.Results[0], r.Results[1]
 		if vec == ssa.Value(args) {
 			key := fmt.Sprintf("%s:exit#%d[unchanged]", Q(fn), i)
@@ -745,7 +745,7 @@ func (c *Ctx) vecLenIn(v ssa.Value, env map[ssa.Value]lin, depth int) (lin, bool
 				sub[p] = l
 			}
 		}
-		rs := ir.Returns(f)
+		rs := ir.ReturnPoints(f)
 		if len(rs) != 1 {
 			return lin{}, false
 		}
@@ -815,7 +815,7 @@ func mat7(c *Ctx) {
 		}
 		// own-match returns and their counts
 		type own struct {
-			r       *ssa.Return
+			r       *ir.RetPoint
 			drop    int64
 			touched int64
 		}
@@ -826,7 +826,7 @@ func mat7(c *Ctx) {
 			}
 		}
 		recs := c.ctxRecords(fn)
-		touchedOf := func(r *ssa.Return) int64 {
+		touchedOf := func(r *ir.RetPoint) int64 {
 			var t int64 = 1
 			for _, rec := range recs {
 				if !rec.ok || !(rec.mu.Block() == r.Block() || rec.mu.Block().Dominates(r.Block())) {
@@ -839,7 +839,7 @@ func mat7(c *Ctx) {
 			return t
 		}
 		var owns []own
-		for _, r := range ir.Returns(fn) {
+		for _, r := range ir.ReturnPoints(fn) {
 			if v, isC := ir.ConstBool(r.Results[0]); isC && v {
 				d, ok := dropped(r.Results[2])
 				key := fmt.Sprintf("%s:own@%s", Q(fn), relLine(c, fn, r.Pos()))
@@ -1344,7 +1344,7 @@ func positiveStep(phi *ssa.Phi, v ssa.Value, pred *ssa.BasicBlock) string {
 	if f == nil {
 		return "the step comes from an unresolved call"
 	}
-	for _, r := range ir.Returns(f) {
+	for _, r := range ir.ReturnPoints(f) {
 		k, isC := ir.ConstInt(r.Results[ex.Index])
 		if !isC || k < 0 {
 			return fmt.Sprintf("%s can return a non-constant or negative count", f.Name())
